@@ -69,7 +69,7 @@ def make_cfg(alt, lat, lon, limb_frac=None, cone=None, az=None):
         c.simulation.max_cherenkov_angle = float(cone)
     if az is not None:
         c.simulation.max_azimuth_angle = float(az)
-    return c
+    return core.validated(c, "C02 geometry configuration")
 
 
 def positions(ctx, rng, n):
